@@ -37,6 +37,9 @@ func c06Alphabet() []fsx.Op {
 		{K: "RENAME", H: "root/d", N: "y", H2: "root/d/y", N2: "z"},
 		{K: "RENAME", H: "dead:root/d", N: "x", H2: "root", N2: "q"},
 		{K: "RENAME", H: "root", N: "a", H2: "dead:root/d", N2: "q"},
+		// (search "regen": t's inode number is d's now) a stale directory handle with the number of the live directory on the other side, existing names
+		{K: "RENAME", H: "root/d", N: "x", H2: "dead:root/t", N2: "y"},
+		{K: "RENAME", H: "dead:root/t", N: "x", H2: "root/d", N2: "y"},
 		{K: "REMOVE", H: "root/d", N: "."}, {K: "RMDIR", H: "root/d", N: ".."}, {K: "REMOVE", H: "root", N: "d"},
 		{K: "LOOKUP", H: "root/d", N: ".."}, {K: "LOOKUP", H: "root/d", N: "."}, {K: "LOOKUP", H: "root/d/y", N: ".."},
 		{K: "READDIRPLUS", H: "root/d", DirCnt: 1 << 20, MaxCnt: 1 << 20}, {K: "READDIRPLUS", H: "root", DirCnt: 1 << 20, MaxCnt: 1 << 20},
@@ -168,6 +171,11 @@ func init() {
 	RegisterSeq("c06.seq", &SeqSpec{Prop: "C06", DiskSize: 3000, Alphabet: c06Alphabet(), After: c06After})
 	// directories living in recycled inodes (generation differs from the root's)
 	RegisterSeq("c06.seq.regen", &SeqSpec{Prop: "C06", DiskSize: 3000, Setup: []fsx.Op{{K: "MKDIR", H: "root", N: "t"}, {K: "RMDIR", H: "root", N: "t"}, {K: "RESTART"}}, Alphabet: c06Alphabet(), After: c06After})
+	// one client truncating and re-growing a file whose truncation is finished in the background, again and again
+	// (shrinker threads accumulate while the client never waits)
+	RegisterSeq("c06.trunc", &SeqSpec{Prop: "C06", DiskSize: 3000, Setup: []fsx.Op{{K: "CREATE", H: "root", N: "a"}, {K: "CREATE", H: "root", N: "b"}}, After: c06After,
+		Alphabet: []fsx.Op{{K: "SETATTR", H: "root/a", Size: 700 * 4096}, {K: "SETATTR", H: "root/a", Size: 0}, {K: "SETATTR", H: "root/a", Size: 4096 + 7}, {K: "SETATTR", H: "root/b", Size: 900 * 4096},
+			{K: "REMOVE", H: "root", N: "b"}, {K: "WRITE", H: "root/a", Off: 0, Cnt: 10, Pat: 1, Stable: 2}}})
 	RegisterSeq("c06.seq.inv", &SeqSpec{Prop: "C06", DiskSize: 3000, Setup: invertedSetup, Alphabet: c06Alphabet(), After: c06After})
 	par.Register("c06.locks", lockJob)
 }
@@ -177,12 +185,13 @@ func C06(r *report.Report, tier string) {
 	if tier == "thorough" {
 		depth, bound = 4, 3
 	}
-	r.Rule = fmt.Sprintf("(a) breadth-first search to depth %d over a %d-symbol alphabet of requests whose inodes coincide or are ordered arbitrarily (rename onto . / .., directory into itself, over its own parent, stale handles, cold caches after restart), from a fresh image, an inode-inverted image and an image whose next directory lands in a recycled inode (generation different from the root's): a single client must never wait on itself, deadlock or exceed the scheduling-point horizon; (b) in four named states and in every state reached by a few shape-changing operations from a fresh and from an inode-inverted image (children with smaller and larger inode numbers than their parents), each with warm and with cold caches, the lock-acquisition trace of every probe operation is recorded, every pair of operations whose traces acquire two inode locks in opposite orders is a predicted deadlock, and each prediction is confirmed or refuted by exploring all schedules with <=%d deviations of the two operations run concurrently from that state - only a real deadlock schedule is a violation; (c) deadlock/horizon verdicts of all schedules with <=1 deviation of the C03 harnesses that involve renames, inverted inode numbers or background frees (horizon 400000 scheduling points)", depth, len(c06Alphabet()), bound)
+	r.Rule = fmt.Sprintf("(a) breadth-first search to depth %d over a %d-symbol alphabet of requests whose inodes coincide or are ordered arbitrarily (rename onto . / .., directory into itself, over its own parent, stale handles, cold caches after restart), from a fresh image, an inode-inverted image and an image whose next directory lands in a recycled inode (generation different from the root's): a single client must never wait on itself, deadlock or exceed the scheduling-point horizon; a further search (depth four more) over truncations and re-growths of files whose truncation is finished in the background (shrinker threads accumulate); (b) in four named states and in every state reached by a few shape-changing operations from a fresh and from an inode-inverted image (children with smaller and larger inode numbers than their parents), each with warm and with cold caches, the lock-acquisition trace of every probe operation is recorded, every pair of operations whose traces acquire two inode locks in opposite orders is a predicted deadlock, and each prediction is confirmed or refuted by exploring all schedules with <=%d deviations of the two operations run concurrently from that state - only a real deadlock schedule is a violation; (c) deadlock/horizon verdicts of all schedules with <=1 deviation of the C03 harnesses that involve renames, inverted inode numbers or background frees (horizon 400000 scheduling points)", depth, len(c06Alphabet()), bound)
 	r.Only = map[string]bool{"C06": true}
 	s1 := RunSeq(r, "c06.seq", depth)
 	s2 := RunSeq(r, "c06.seq.inv", depth-1)
 	s3 := RunSeq(r, "c06.seq.regen", depth+1)
-	r.Extra["searches"] = []*SeqSummary{s1, s2, s3}
+	s4 := RunSeq(r, "c06.trunc", depth+4)
+	r.Extra["searches"] = []*SeqSummary{s1, s2, s3, s4}
 	// (b)
 	states := []lockArg{
 		{Setup: []fsx.Op{{K: "MKDIR", H: "root", N: "d"}, {K: "MKDIR", H: "root/d", N: "y"}, {K: "CREATE", H: "root/d", N: "x"}, {K: "CREATE", H: "root", N: "a"}}},
